@@ -27,6 +27,10 @@ struct Case {
     /// which task gets the next step: 0 = the lookup, 1.. = publisher i-1.  A task that is
     /// already finished is skipped; tasks still running after the list are completed in order.
     schedule: Vec<u8>,
+    /// the key has no packet at all before the schedule (first publish overlapping a lookup);
+    /// index 0 of the packet list then stands for "nothing published"
+    #[serde(default)]
+    no_old: bool,
 }
 
 /// Event from a task to the controller.
@@ -86,7 +90,13 @@ fn make_packet(sk: &iroh_base::SecretKey, z: &str, ts: u64, txt: &str) -> Pk {
 }
 
 /// Rank of an observed answer: index into `all` of the packet whose TXT it shows.
+thread_local! { static NO_OLD: std::cell::Cell<bool> = const { std::cell::Cell::new(false) }; }
+
 fn which(all: &[&Pk], answer: &Option<Vec<Vec<u8>>>) -> Option<usize> {
+    if NO_OLD.with(|n| n.get()) && answer.as_ref().is_none_or(|a| a.is_empty()) {
+        // nothing published yet: a not-found answer is the "packet 0" of this case
+        return Some(0);
+    }
     let a = answer.as_ref()?;
     if a.len() != 1 {
         return None;
@@ -139,13 +149,15 @@ fn run_case(ctx: &Ctx, case: &Case) -> Outcome {
         }
     }
 
+    let no_old = case.no_old && case.kinds.iter().all(|k| k % 3 == 0);
+    NO_OLD.with(|n| n.set(no_old));
     let known_stale = ctx.known("C38:stale-cache-fill");
     let mut classes: Vec<&'static str> = vec![];
     let mut window = false;
     let res: Result<(), (String, String)> = engine::real_rt(async {
         let store = ZoneStoreHandle::in_memory(dnssrv::quiet_store_config()).expect("in-memory zone store");
         let r = async {
-            let first = store.insert(old.packet.clone()).await.map_err(|e| ("C38:insert-failed".to_string(), format!("{e:?}")))?;
+            let first = if no_old { true } else { store.insert(old.packet.clone()).await.map_err(|e| ("C38:insert-failed".to_string(), format!("{e:?}")))? };
             if !first {
                 return Err(("C38:first-publish-not-update".to_string(), "the first publish for a key was not reported as an update".to_string()));
             }
@@ -265,7 +277,10 @@ fn run_case(ctx: &Ctx, case: &Case) -> Outcome {
             }
             // everything is acknowledged now; later reads must not go behind `acked`
             let stored = store.get_signed_packet(&pk).await.map_err(|e| ("C38:get-failed".to_string(), format!("{e:?}")))?;
-            let stored_idx = stored.as_ref().and_then(|s| all.iter().position(|p| p.packet.as_bytes() == s.as_bytes()));
+            let stored_idx = match &stored {
+                None if no_old => Some(0),
+                s => s.as_ref().and_then(|s| all.iter().position(|p| p.packet.as_bytes() == s.as_bytes())),
+            };
             match stored_idx {
                 Some(i) if at_least(&all, i, acked) => {}
                 other => {
@@ -301,6 +316,9 @@ fn run_case(ctx: &Ctx, case: &Case) -> Outcome {
         drop(store);
         r
     });
+    if no_old {
+        classes.push("no-packet-before");
+    }
     if case.cache_filled {
         classes.push("cache-initially-filled");
     } else {
@@ -350,7 +368,10 @@ fn cases(thorough: bool) -> Vec<Case> {
     for sched in interleavings(&[3, 2]) {
         for cache_filled in [false, true] {
             for kind in 0..3u8 {
-                out.push(Case { seed: 38, cache_filled, kinds: vec![kind], schedule: sched.clone() });
+                out.push(Case { seed: 38, cache_filled, kinds: vec![kind], schedule: sched.clone(), no_old: false });
+                if kind == 0 {
+                    out.push(Case { seed: 39, cache_filled, kinds: vec![kind], schedule: sched.clone(), no_old: true });
+                }
             }
         }
     }
@@ -359,7 +380,10 @@ fn cases(thorough: bool) -> Vec<Case> {
     for sched in interleavings(&[3, 2, 2]) {
         for cache_filled in [false, true] {
             for &(a, b) in kind_pairs {
-                out.push(Case { seed: 3838, cache_filled, kinds: vec![a, b], schedule: sched.clone() });
+                out.push(Case { seed: 3838, cache_filled, kinds: vec![a, b], schedule: sched.clone(), no_old: false });
+                if (a, b) == (0, 0) {
+                    out.push(Case { seed: 3839, cache_filled, kinds: vec![a, b], schedule: sched.clone(), no_old: true });
+                }
             }
         }
     }
